@@ -9,6 +9,6 @@ for P in $1; do
     chk="$P $extra"
     [ -f vf/checks/$(echo $P | tr A-Z a-z).py ] || chk="$extra"
     python3 tools/seed_eval.py $d $P-m$k $chk > scratch/seedlogs/$P-m$k.log 2>&1
-    echo "$P-m$k: $(grep -A3 caught_by seeded/$P-m$k/meta.json | tr -d '\n' | cut -c1-120)"
+    echo "$P-m$k: $(grep -A3 caught_by ${SEED_DEST:-.}/seeded/$P-m$k/meta.json | tr -d '\n' | cut -c1-120)"
   done
 done
